@@ -43,6 +43,8 @@ fn main() {
         "C06" => mc::checks::c06::run(rep),
         "C07" => mc::checks::c07::run(rep),
         "C16" => mc::checks::c16::run(rep),
+        "C20" => mc::checks::c20::run(rep),
+        "C19" => mc::checks::c19::run(rep),
         "C08" => mc::checks::c08::run(rep),
         "C09" => mc::checks::c09::run(rep),
         "C10" => mc::checks::c10::run(rep),
